@@ -63,6 +63,9 @@ def run_ops(sess, spec, args, rr, stop_on_exc):
     return outs
 
 
+FRAG = [None]        # fragmentation of the device's byte stream into reads for the runs of the moment (None: whole packets parts)
+
+
 def one_run(mode, seed, faults, wcap_seed=None):
     """faults: {call index: kind}.  Returns (trace, total transport calls of the fault-free prefix)."""
     spec = dict(seed=seed, maxdata=4096, rid='random', frag='whole', ops=scenario_ops(seed))
@@ -74,6 +77,8 @@ def one_run(mode, seed, faults, wcap_seed=None):
     if wcap_seed is not None:
         r_ = random.Random(wcap_seed)
         kw2['wcap'] = lambda n: r_.randint(1, n)
+    if FRAG[0]:
+        kw2['frag'] = scen.frag_fn(FRAG[0], seed)
     sess = env.Session(mode, dev, fault=fault, tick=0.001, default_transport_timeout_s=None, exclusive=True, **kw2)
     sess.core.max_calls = 20000
     sess.loop_per_call = (mode == 'async' and bool(faults) and min(faults) % 2 == 0)       # every other faulted async run: one event loop per public call (asyncio.run() each time)
@@ -282,6 +287,21 @@ def body(ctx):
                     tr, fault = fault_trace(mode, ctx.seed, {ncalls + extra: kind}, base, skip_close=skip_close)
                     traces.append(tr)
                     meta.append(dict(kind='fault-in-recovery', mode=mode, at={str(ncalls + extra): kind}, recovery_without_close=skip_close))
+        # the same scenario with the device's bytes arriving in fragments: a fault now strikes after part of a header or payload
+        # was read; whatever the host kept of that packet must not reach the next connection (seeded change C12-w10-c12-m1)
+        FRAG[0] = 'random'
+        try:
+            base_f, ncalls_f, calls_f = baseline_for(mode, ctx.seed)
+            rk = [k for k in range(min(ncalls_f, len(calls_f))) if calls_f[k][0] == 'bulk_read']
+            step = max(1, len(rk) // (40 if ctx.quick else 400))
+            ctx.extra.setdefault('fragmented_scenario_reads', {})[mode] = len(rk)
+            for j, k in enumerate(rk[::step]):
+                for kind in ('timeout', 'reset'):
+                    tr, fault = fault_trace(mode, ctx.seed, {k: kind}, base_f, skip_close=bool(j % 2))
+                    traces.append(tr)
+                    meta.append(dict(kind='fault under fragmented reads', mode=mode, at={str(k): kind}, recovery_without_close=bool(j % 2)))
+        finally:
+            FRAG[0] = None
         t_a, m_a = auth_connect_faults(ctx, mode)
         traces += t_a
         meta += m_a
